@@ -101,8 +101,12 @@ Exec(m, cx) ==
       rd == IF mode = "imm" THEN [v |-> I.a % 256, f |-> {}, io |-> <<>>]
             ELSE IF isMem THEN Read(m, cx, ea) ELSE [v |-> 0, f |-> {}, io |-> <<>>]
       pf == PtrFaults(m, cx, I, mode)
+      \* an instruction the compiler marked `protected` (explicit load / store / strobe / csleep accesses, loads kept for their flags):
+      \* its memory access is recorded, whatever the cell - the optimiser may never remove, duplicate or reorder such an instruction
+      prot == "p" \in DOMAIN I /\ I.p = 1
       m0 == [m EXCEPT !.pc = @ + 1, !.steps = @ + 1,
-                      !.cyc = @ + Cycles(op, mode) + (IF op \in Branches /\ Taken(m, op) THEN 1 ELSE 0)]
+                      !.cyc = @ + Cycles(op, mode) + (IF op \in Branches /\ Taken(m, op) THEN 1 ELSE 0),
+                      !.xio = IF prot /\ isMem THEN Append(@, [op |-> op, addr |-> ea]) ELSE @]
       \* helper: after an instruction that read its operand
       R(mm) == [mm EXCEPT !.fault = @ \cup rd.f \cup pf, !.io = @ \o rd.io]
       \* helper: store v at ea
@@ -175,7 +179,7 @@ Step(m, cx) ==
 \* A fresh machine.
 Machine(pc, a, x, y, c, z, n, v, mem) ==
   [pc |-> pc, A |-> a, X |-> x, Y |-> y, C |-> c, Z |-> z, N |-> n, V |-> v, mem |-> mem,
-   stk |-> <<>>, cyc |-> 0, io |-> <<>>, fault |-> {}, halted |-> FALSE, steps |-> 0]
+   stk |-> <<>>, cyc |-> 0, io |-> <<>>, xio |-> <<>>, fault |-> {}, halted |-> FALSE, steps |-> 0]
 
 \* Run at most n steps (used by self-tests and by checkers that need a result, not a behaviour).
 RECURSIVE Run(_, _, _)
